@@ -18,6 +18,8 @@ import (
 )
 
 func convRun(args []string) {
+	// the process's local time zone is not UTC (conversions must not depend on it)
+	time.Local = time.FixedZone("verif+2", 2*3600)
 	fs := flag.NewFlagSet("conv-run", flag.ExitOnError)
 	seed := fs.Int64("seed", 1, "")
 	kmax := fs.Int("kmax", 20000, "dense range of k")
@@ -165,9 +167,16 @@ func convRun(args []string) {
 				time.Sleep(5 * time.Millisecond)
 			}
 			want := time.Duration(1+rnd.Intn(86400*3)) * time.Second
+			if i%3 == 1 {
+				want = time.Duration(1+rnd.Intn(86400*1000)) * time.Second // up to 1000 days (below the long-duration finding)
+			}
 			tp := model.NewTimePeriodTypeWithRelativeEndTime(want)
 			b, err := json.Marshal(tp)
 			var back model.TimePeriodType
+			if i%2 == 0 {
+				// decoded into a value that held another period before (with a start time): nothing of it may survive
+				_ = json.Unmarshal([]byte(`{"startTime":"2035-01-02T03:04:05Z","endTime":"2035-06-07T08:09:10Z"}`), &back)
+			}
 			diff := int64(99999)
 			if err == nil && json.Unmarshal(b, &back) == nil {
 				if got, e2 := back.GetDuration(); e2 == nil {
